@@ -293,6 +293,9 @@ def match_known(findings, prop, violation, plan, sim):
 
 def check(prop, tier, base_seed, workers=None):
     t_start = time.monotonic()
+    from .util import import_labella
+
+    import_labella()  # the main process shrinks and replays: same tree as the workers
     sim_name = PROP2SIM[prop]
     sim = load_sim(sim_name)
     if workers is None:
@@ -303,11 +306,30 @@ def check(prop, tier, base_seed, workers=None):
     print("labsim check property=%s sim=%s tier=%s VERIF_SEED=%d repo=%s rev=%s workers=%d max_runs=%d wall_cap=%.0fs"
           % (prop, sim_name, tier, base_seed, REPO, repo_rev(), workers, max_runs, wall_cap))
     sys.stdout.flush()
+    # 0. minimal replays of defects that were repaired ("fixed:" entries
+    #    suppress nothing): if one of them fails again it is reported at once.
+    regress_hits = []
+    regress_n = 0
+    rdir = os.path.join(VERIF, "regressions")
+    if os.path.isdir(rdir):
+        for fn in sorted(os.listdir(rdir)):
+            if not fn.startswith(prop + "-") or not fn.endswith(".json"):
+                continue
+            with open(os.path.join(rdir, fn)) as f:
+                doc = json.load(f)
+            regress_n += 1
+            res = sim.execute(doc["plan"])
+            hit = [v for v in res.get("violations", []) if v["property"] == prop]
+            if hit:
+                regress_hits.append({"path": os.path.join(rdir, fn), "violation": hit[0], "plan": doc["plan"],
+                                     "shrink_evals": 0, "ops_before": len(doc["plan"]["ops"]),
+                                     "ops_after": len(doc["plan"]["ops"])})
+    print("regression replays: %d executed, %d failing" % (regress_n, len(regress_hits)))
     batch = run_batch(sim_name, base_seed, tier, max_runs, wall_cap, workers,
                       chunk=budget.get("chunk", 25), stop_on_violation_of=[prop])
     mine = [v for v in batch.violations if v["violation"]["property"] == prop]
     findings = load_findings()
-    reported = []
+    reported = list(regress_hits)
     known_lines = []
     seen_classes = set()
     for item in mine:
@@ -336,6 +358,7 @@ def check(prop, tier, base_seed, workers=None):
                          "ops_after": len(best["ops"])})
     wall = time.monotonic() - t_start
     ev = build_evidence(sim, prop, tier, base_seed, batch, wall, reported, known_lines)
+    ev["coverage"]["regression_replays_executed"] = regress_n
     os.makedirs(os.path.join(VERIF, "evidence"), exist_ok=True)
     with open(os.path.join(VERIF, "evidence", prop + ".json"), "w") as f:
         json.dump(ev, f, indent=1, sort_keys=True)
